@@ -1,2 +1,544 @@
-(* Leaf/LeafSpecs4.v — under construction (C19) *)
-From M4 Require Import Leaf.CMini.
+(* Leaf/LeafSpecs4.v — m4ri_spread_bits (misc.h:388) and m4ri_shrink_bits (misc.h:346), the
+   TRANSLATED 16-case fall-through switches, for every length 1..16, every word and every table Q
+   in the documented domain (strictly increasing, base <= Q[0], Q[length-1] < base + 64).
+
+   Route: (1) the translated bodies are, syntactically, the switch generated from one parametric
+   case statement ([spread_syntax], [shrink_syntax], by reflexivity — a change of the C text breaks
+   it);  (2) one symbolic execution of the parametric case statement ([spread_stmt_exec],
+   [shrink_stmt_exec]);  (3) for each of the 16 lengths the interpreter's dispatch + fall-through
+   is computed and the cases are discharged by (2): the run equals the recursive hand model
+   [spread_model]/[shrink_model] ([spread_run], [shrink_run]);  (4) bit-level specification of the
+   models and the two inverse laws. *)
+From Coq Require Import ZArith NArith List String Bool Lia ZifyBool ZifyNat ZifyN.
+From M4 Require Import Base.Bits Leaf.CMini Leaf.Gen_leaf Leaf.LeafSpecs.
+Import ListNotations.
+Local Open Scope Z_scope.
+
+(** * (1) syntax *)
+Definition spread_stmt (j : Z) : stmt :=
+  Sassign (Lvar 5) (Ebinop Oor tulong (Evar 5)
+    (Eshift Oshl tulong
+       (Ebinop Oand tulong (Evar 1) (Eshift Oshl tulong (Ecast tulong (Econst 1)) (Econst j)))
+       (Ebinop Osub tint (Ebinop Osub tint (Eindex (Evar 2) (Econst j)) (Econst j)) (Evar 4)))).
+
+Definition shrink_stmt (j : Z) : stmt :=
+  Sassign (Lvar 5) (Ebinop Oor tulong (Evar 5)
+    (Eshift Oshr tulong
+       (Ebinop Oand tulong (Evar 1)
+          (Eshift Oshl tulong (Ecast tulong (Econst 1)) (Ebinop Osub tint (Eindex (Evar 2) (Econst j)) (Evar 4))))
+       (Ebinop Osub tint (Ebinop Osub tint (Eindex (Evar 2) (Econst j)) (Econst j)) (Evar 4)))).
+
+(** case n: st n; case n-1: st (n-1); ... case 1: st 1; tail *)
+Fixpoint cases_from (st : Z -> stmt) (n : nat) (tail : cases) : cases :=
+  match n with
+  | O => tail
+  | S n' => CCons (Some (Z.of_nat n)) (st (Z.of_nat n)) (cases_from st n' tail)
+  end.
+
+Definition sw_body (st : Z -> stmt) : stmt :=
+  Sseq (Sdecl 5 (Some (Ecast tulong (Econst 0))))
+    (Sseq (Sswitch (Ebinop Osub tint (Evar 3) (Econst 1))
+             (cases_from st 15 (CCons (Some 0) (Sseq (st 0) Sbreak) (CCons None Sdie CNil))))
+          (Sreturn (Some (Evar 5)))).
+
+Lemma spread_syntax : fn_body f_m4ri_spread_bits = sw_body spread_stmt.
+Proof. reflexivity. Qed.
+Lemma shrink_syntax : fn_body f_m4ri_shrink_bits = sw_body shrink_stmt.
+Proof. reflexivity. Qed.
+Lemma spread_params : fn_params f_m4ri_spread_bits = [(1, Pint tulong); (2, Pptr tint); (3, Pint tint); (4, Pint tint)]%positive.
+Proof. reflexivity. Qed.
+Lemma shrink_params : fn_params f_m4ri_shrink_bits = [(1, Pint tulong); (2, Pptr tint); (3, Pint tint); (4, Pint tint)]%positive.
+Proof. reflexivity. Qed.
+
+(** * (2) one case statement, executed symbolically *)
+Definition M64 : Z := 18446744073709551616.
+
+Definition spread_upd (from base j qj to : Z) : Z :=
+  Z.lor to (Z.shiftl (Z.land from (Z.shiftl 1 j mod M64) mod M64) (qj - j - base) mod M64) mod M64.
+Definition shrink_upd (from base j qj to : Z) : Z :=
+  Z.lor to (Z.shiftr (Z.land from (Z.shiftl 1 (qj - base) mod M64) mod M64) (qj - j - base)) mod M64.
+
+Definition senv (from : Z) (b : positive) (len base to : Z) : @env Z :=
+  tset 5 (Vint to) (tset 4 (Vint base) (tset 3 (Vint len) (tset 2 (Vptr b 0) (tset 1 (Vint from) TLeaf)))).
+
+Ltac if_true tac :=
+  match goal with
+  | |- context [if ?c then _ else _] =>
+      let H := fresh "Hc" in assert (H : c = true) by tac; rewrite H; clear H
+  end.
+Ltac rng := unfold in_range; cbn; lia.
+
+Lemma spread_stmt_exec call lf j from b len base to m qj :
+  0 <= j <= 15 -> load m b j = Ok (Vint qj) ->
+  0 <= qj < 2 ^ 31 -> 0 <= base -> 0 <= qj - j - base < 64 ->
+  exec zops call lf (spread_stmt j) (senv from b len base to) m =
+  Ok (ONormal (senv from b len base (spread_upd from base j qj to)) m).
+Proof.
+  intros Hj Hl Hq Hb Hs. unfold spread_stmt, senv. cbn.
+  if_true lia. cbn. rewrite Hl. cbn.
+  if_true rng. cbn. if_true rng. cbn. if_true lia. cbn. reflexivity.
+Qed.
+
+Lemma shrink_stmt_exec call lf j from b len base to m qj :
+  0 <= j <= 15 -> load m b j = Ok (Vint qj) ->
+  0 <= qj < 2 ^ 31 -> 0 <= base -> 0 <= qj - j - base -> qj - base < 64 ->
+  exec zops call lf (shrink_stmt j) (senv from b len base to) m =
+  Ok (ONormal (senv from b len base (shrink_upd from base j qj to)) m).
+Proof.
+  intros Hj Hl Hq Hb Hs Hs'. unfold shrink_stmt, senv. cbn.
+  rewrite Hl. cbn.
+  if_true rng. cbn. if_true lia. cbn. if_true rng. cbn. if_true rng. cbn. if_true lia. cbn.
+  reflexivity.
+Qed.
+
+(** * (3) dispatch and fall-through of the switch, generically in the case statement *)
+Lemma exec_Sseq {V} (ops : vops V) call lf s1 s2 e m :
+  exec ops call lf (Sseq s1 s2) e m =
+  (do o <- exec ops call lf s1 e m;
+   match o with ONormal e' m' => exec ops call lf s2 e' m' | _ => Ok o end).
+Proof. reflexivity. Qed.
+
+Definition tail0 (st : Z -> stmt) : cases := CCons (Some 0) (Sseq (st 0) Sbreak) (CCons None Sdie CNil).
+
+Lemma has_label_cases st k : (k <= 15)%nat -> has_label (Some (Z.of_nat k)) (cases_from st 15 (tail0 st)) = true.
+Proof. intros H. do 16 (destruct k as [|k]; [reflexivity|]). lia. Qed.
+
+Lemma run_S p lf d f args (m : @mem Z) :
+  run zops p lf (S d) f args m =
+  match find_func p f with
+  | None => UB "call of an unknown function"
+  | Some fn =>
+      do e <- bind_params (fn_params fn) args TLeaf;
+      do o <- exec zops (run zops p lf d) lf (fn_body fn) e m;
+      match o with
+      | OReturn v m' => Ok (v, m')
+      | ONormal _ m' => Ok (None, m')
+      | _ => UB "break or continue outside of a loop"
+      end
+  end.
+Proof. reflexivity. Qed.
+
+Section SwitchSem.
+  Variable call : string -> list (@val Z) -> @mem Z -> res (option (@val Z) * @mem Z).
+  Variable lf : nat.
+  Variable st : Z -> stmt.
+  Variables (from : Z) (b : positive) (base : Z) (m : @mem Z).
+  Variable upd : Z -> Z -> Z.
+  Variable n : nat.
+  Hypothesis Hn : (1 <= n <= 16)%nat.
+  Let len := Z.of_nat n.
+  Hypothesis Hstep : forall j to, 0 <= j < len ->
+    exec zops call lf (st j) (senv from b len base to) m = Ok (ONormal (senv from b len base (upd j to)) m).
+
+  (** [model k to]: the cases k-1, ..., 0 applied to [to] in this order *)
+  Fixpoint model (k : nat) (to : Z) : Z :=
+    match k with
+    | O => to
+    | S j => model j (upd (Z.of_nat j) to)
+    end.
+
+  Lemma fall i : forall sr to, (i < n)%nat ->
+    match sr with None => true | Some tg => lbl_eqb tg (Some (Z.of_nat i)) end = true ->
+    exec_cases zops call lf (cases_from st i (tail0 st)) sr (senv from b len base to) m =
+    Ok (OBreak (senv from b len base (model (S i) to)) m).
+  Proof.
+    induction i as [|i IH]; intros sr to Hi Hsr.
+    - cbn [cases_from]. unfold tail0. rewrite CMiniSim.exec_cases_CCons.
+      change (Z.of_nat 0) with 0 in Hsr. rewrite Hsr. rewrite exec_Sseq, Hstep by (unfold len; lia).
+      cbn [bind]. reflexivity.
+    - cbn [cases_from]. rewrite CMiniSim.exec_cases_CCons. rewrite Hsr.
+      rewrite Hstep by (unfold len; lia). cbn [bind].
+      rewrite (IH None) by (reflexivity || lia). reflexivity.
+  Qed.
+
+  Lemma search i k e m' : (k <= i)%nat ->
+    exec_cases zops call lf (cases_from st i (tail0 st)) (Some (Some (Z.of_nat k))) e m' =
+    exec_cases zops call lf (cases_from st k (tail0 st)) (Some (Some (Z.of_nat k))) e m'.
+  Proof.
+    induction i as [|i IH]; intros Hk.
+    - replace k with 0%nat by lia. reflexivity.
+    - destruct (Nat.eq_dec k (S i)) as [->|Hne]; [reflexivity|].
+      cbn [cases_from]. rewrite CMiniSim.exec_cases_CCons. cbn [lbl_eqb].
+      destruct (Z.eqb_spec (Z.of_nat k) (Z.of_nat (S i))) as [E|_]; [lia|]. apply IH. lia.
+  Qed.
+
+  Lemma switch_sem to :
+    -2147483648 <= len - 1 ->
+    exec zops call lf (Sswitch (Ebinop Osub tint (Evar 3) (Econst 1)) (cases_from st 15 (tail0 st)))
+         (senv from b len base to) m =
+    Ok (ONormal (senv from b len base (model n to)) m).
+  Proof.
+    intros _. rewrite CMiniSim.exec_Sswitch.
+    assert (Hsel : eval zops (senv from b len base to) m (Ebinop Osub tint (Evar 3) (Econst 1)) =
+                   Ok (Vint (Z.of_nat (n - 1)))).
+    { unfold senv. cbn. if_true ltac:(unfold in_range; cbn; unfold len; lia). cbn.
+      do 3 f_equal. unfold len. lia. }
+    rewrite Hsel. cbn [bind ctl as_int v_ctl zops].
+    rewrite has_label_cases by lia. rewrite search by lia.
+    rewrite fall; [|lia|cbn [lbl_eqb]; apply Z.eqb_refl]. cbn [bind end_switch].
+    replace (S (n - 1)) with n by lia. reflexivity.
+  Qed.
+
+  Lemma body_sem :
+    exec zops call lf (sw_body st)
+         (tset 4 (Vint base) (tset 3 (Vint len) (tset 2 (Vptr b 0) (tset 1 (Vint from) TLeaf)))) m =
+    Ok (OReturn (Some (Vint (model n 0))) m).
+  Proof.
+    unfold sw_body. rewrite exec_Sseq.
+    assert (Hd : exec zops call lf (Sdecl 5 (Some (Ecast tulong (Econst 0))))
+                   (tset 4 (Vint base) (tset 3 (Vint len) (tset 2 (Vptr b 0) (tset 1 (Vint from) TLeaf)))) m =
+                 Ok (ONormal (senv from b len base 0) m)) by reflexivity.
+    rewrite Hd. cbn [bind]. rewrite exec_Sseq.
+    change (CCons (Some 0) (Sseq (st 0) Sbreak) (CCons None Sdie CNil)) with (tail0 st).
+    rewrite switch_sem by (unfold len; lia). cbn [bind]. reflexivity.
+  Qed.
+End SwitchSem.
+
+(** * Argument arrays *)
+Lemma key_inj i j : 0 <= i -> 0 <= j -> key i = key j -> i = j.
+Proof. unfold key. intros Hi Hj H. apply Z2Pos.inj in H; lia. Qed.
+
+Lemma tget_data_of_list (l : list Z) : forall i t j, 0 <= i -> 0 <= j ->
+  tget (key j) (data_of_list l i t) =
+  if (i <=? j) && (j <? i + Z.of_nat (List.length l)) then Some (nth (Z.to_nat (j - i)) l 0)
+  else tget (key j) t.
+Proof.
+  induction l as [|v l IH]; intros i t j Hi Hj; cbn [data_of_list List.length].
+  - destruct (Z.leb_spec i j), (Z.ltb_spec j (i + Z.of_nat 0)); cbn [andb]; try reflexivity. lia.
+  - rewrite IH by lia. rewrite Nat2Z.inj_succ.
+    destruct (Z.leb_spec (i + 1) j), (Z.ltb_spec j (i + 1 + Z.of_nat (List.length l))); cbn [andb].
+    + destruct (Z.leb_spec i j), (Z.ltb_spec j (i + Z.succ (Z.of_nat (List.length l)))); cbn [andb]; try lia.
+      replace (Z.to_nat (j - i)) with (S (Z.to_nat (j - (i + 1)))) by lia. reflexivity.
+    + destruct (Z.leb_spec i j), (Z.ltb_spec j (i + Z.succ (Z.of_nat (List.length l)))); cbn [andb]; try lia.
+      all: rewrite tget_tset_other; [reflexivity|intros E; apply key_inj in E; lia].
+    + destruct (Z.leb_spec i j), (Z.ltb_spec j (i + Z.succ (Z.of_nat (List.length l)))); cbn [andb]; try lia.
+      * replace j with i by lia. rewrite tget_tset_same. replace (i - i) with 0 by lia. reflexivity.
+      * rewrite tget_tset_other; [reflexivity|intros E; apply key_inj in E; lia].
+    + destruct (Z.leb_spec i j), (Z.ltb_spec j (i + Z.succ (Z.of_nat (List.length l)))); cbn [andb]; try lia.
+      all: rewrite tget_tset_other; [reflexivity|intros E; apply key_inj in E; lia].
+Qed.
+
+Lemma load_alloc_list (Q : list Z) j : 0 <= j < Z.of_nat (List.length Q) ->
+  load (fst (alloc_list (@empty_mem Z) Q)) (snd (alloc_list (@empty_mem Z) Q)) j =
+  Ok (Vint (nth (Z.to_nat j) Q 0)).
+Proof.
+  intros Hj. unfold alloc_list, alloc, load. cbn [fst snd m_blocks m_next empty_mem].
+  rewrite tget_tset_same. unfold in_ext. cbn [b_ext b_data].
+  destruct (Z.leb_spec 0 j); [|lia]. destruct (Z.ltb_spec j (Z.of_nat (List.length Q))); [|lia]. cbn [andb].
+  rewrite tget_data_of_list by lia.
+  destruct (Z.leb_spec 0 j); [|lia]. destruct (Z.ltb_spec j (0 + Z.of_nat (List.length Q))); [|lia]. cbn [andb].
+  now rewrite Z.sub_0_r.
+Qed.
+
+(** * The documented domain of Q *)
+(** length n; strictly increasing; base <= Q[0]; Q[n-1] < base + 64; entries are non-negative ints *)
+Definition sorted_in_range (Q : list Z) (base : Z) (n : nat) : Prop :=
+  List.length Q = n /\ 0 <= base /\
+  (forall j, (j < n)%nat -> 0 <= nth j Q 0 < 2 ^ 31 /\ base <= nth j Q 0 < base + 64) /\
+  (forall j k, (j < k < n)%nat -> nth j Q 0 < nth k Q 0).
+
+Lemma sorted_lower Q base n : sorted_in_range Q base n ->
+  forall j, (j < n)%nat -> base + Z.of_nat j <= nth j Q 0.
+Proof.
+  intros (Hl & Hb & Hr & Hs) j. induction j as [|j IH]; intros Hj.
+  - destruct (Hr 0%nat Hj). lia.
+  - specialize (IH ltac:(lia)). pose proof (Hs j (S j) ltac:(lia)). lia.
+Qed.
+
+Lemma sorted_inj Q base n : sorted_in_range Q base n ->
+  forall j k, (j < n)%nat -> (k < n)%nat -> nth j Q 0 = nth k Q 0 -> j = k.
+Proof.
+  intros (Hl & Hb & Hr & Hs) j k Hj Hk E.
+  destruct (Nat.lt_total j k) as [H|[H|H]]; [|assumption|].
+  - pose proof (Hs j k ltac:(lia)). lia.
+  - pose proof (Hs k j ltac:(lia)). lia.
+Qed.
+
+(** * (3b) the translated functions compute the recursive models *)
+Definition run_sp (f : string) (from : Z) (Q : list Z) (len base : Z) : res Z :=
+  let mb := alloc_list (@empty_mem Z) Q in
+  ret_int (interp leaf_prog f [Vint from; Vptr (snd mb) 0; Vint len; Vint base] (fst mb)).
+
+Definition spread_model (from base : Z) (Q : list Z) (n : nat) : Z :=
+  model (fun j to => spread_upd from base j (nth (Z.to_nat j) Q 0) to) n 0.
+Definition shrink_model (from base : Z) (Q : list Z) (n : nat) : Z :=
+  model (fun j to => shrink_upd from base j (nth (Z.to_nat j) Q 0) to) n 0.
+
+Theorem spread_run from Q n base : (1 <= n <= 16)%nat -> sorted_in_range Q base n ->
+  run_sp "m4ri_spread_bits" from Q (Z.of_nat n) base = Ok (spread_model from base Q n).
+Proof.
+  intros Hn Hq. pose proof (sorted_lower _ _ _ Hq) as Hlow. destruct Hq as (Hl & Hb & Hr & Hs).
+  unfold run_sp, interp. cbv zeta. change DEPTH with (S 11). rewrite run_S.
+  change (find_func leaf_prog "m4ri_spread_bits") with (Some f_m4ri_spread_bits).
+  cbv beta iota. rewrite spread_params, spread_syntax. cbn [bind_params bind].
+  rewrite (body_sem _ _ spread_stmt from _ base _
+             (fun j to => spread_upd from base j (nth (Z.to_nat j) Q 0) to) n Hn).
+  - reflexivity.
+  - intros j to Hj. specialize (Hr (Z.to_nat j) ltac:(lia)). specialize (Hlow (Z.to_nat j) ltac:(lia)).
+    apply spread_stmt_exec; try lia. apply load_alloc_list. lia.
+Qed.
+
+Theorem shrink_run from Q n base : (1 <= n <= 16)%nat -> sorted_in_range Q base n ->
+  run_sp "m4ri_shrink_bits" from Q (Z.of_nat n) base = Ok (shrink_model from base Q n).
+Proof.
+  intros Hn Hq. pose proof (sorted_lower _ _ _ Hq) as Hlow. destruct Hq as (Hl & Hb & Hr & Hs).
+  unfold run_sp, interp. cbv zeta. change DEPTH with (S 11). rewrite run_S.
+  change (find_func leaf_prog "m4ri_shrink_bits") with (Some f_m4ri_shrink_bits).
+  cbv beta iota. rewrite shrink_params, shrink_syntax. cbn [bind_params bind].
+  rewrite (body_sem _ _ shrink_stmt from _ base _
+             (fun j to => shrink_upd from base j (nth (Z.to_nat j) Q 0) to) n Hn).
+  - reflexivity.
+  - intros j to Hj. specialize (Hr (Z.to_nat j) ltac:(lia)). specialize (Hlow (Z.to_nat j) ltac:(lia)).
+    apply shrink_stmt_exec; try lia. apply load_alloc_list. lia.
+Qed.
+
+(** * (4) bit-level meaning of the models, and the inverse laws *)
+Lemma tb_mod a i : 0 <= i -> Z.testbit (a mod M64) i = (i <? 64) && Z.testbit a i.
+Proof.
+  intros Hi. change M64 with (2 ^ 64). destruct (Z.ltb_spec i 64); cbn [andb].
+  - apply Z.mod_pow2_bits_low. lia.
+  - apply Z.mod_pow2_bits_high. lia.
+Qed.
+
+Lemma tb_one j k : 0 <= j -> Z.testbit (Z.shiftl 1 j) k = (k =? j).
+Proof.
+  intros Hj. rewrite Z.shiftl_1_l. destruct (Z.lt_ge_cases k 0).
+  - rewrite Z.testbit_neg_r by lia. lia.
+  - rewrite Z.pow2_bits_eqb by lia. apply Z.eqb_sym.
+Qed.
+
+Lemma w64_high a i : w64 a -> 64 <= i -> Z.testbit a i = false.
+Proof.
+  intros [H0 H1] Hi. destruct (Z.eq_dec a 0) as [->|Hne]; [apply Z.testbit_0_l|].
+  apply Z.bits_above_log2; [lia|]. assert (Z.log2 a < 64) by (apply Z.log2_lt_pow2; lia). lia.
+Qed.
+
+Lemma w64_mod a : w64 (a mod M64).
+Proof. unfold w64. change (2 ^ 64) with M64. apply Z.mod_pos_bound. reflexivity. Qed.
+
+Lemma spread_upd_w64 from base j qj to : w64 (spread_upd from base j qj to).
+Proof. apply w64_mod. Qed.
+Lemma shrink_upd_w64 from base j qj to : w64 (shrink_upd from base j qj to).
+Proof. apply w64_mod. Qed.
+
+Lemma spread_upd_bits from base j qj to i :
+  w64 to -> 0 <= j -> j <= qj - base < 64 -> 0 <= i ->
+  Z.testbit (spread_upd from base j qj to) i = Z.testbit to i || ((i =? qj - base) && Z.testbit from j).
+Proof.
+  intros Hto Hj Hp Hi. unfold spread_upd. rewrite tb_mod, Z.lor_spec, tb_mod by lia.
+  rewrite Z.shiftl_spec by lia.
+  destruct (Z.ltb_spec i 64) as [Hlt|Hge]; cbn [andb].
+  - f_equal. destruct (Z.lt_ge_cases (i - (qj - j - base)) 0) as [Hneg|Hnn].
+    + rewrite Z.testbit_neg_r by lia. destruct (Z.eqb_spec i (qj - base)); [lia|reflexivity].
+    + rewrite tb_mod, Z.land_spec, tb_mod, tb_one by lia.
+      destruct (Z.eqb_spec i (qj - base)) as [->|Hne].
+      * replace (qj - base - (qj - j - base)) with j by lia. rewrite Z.eqb_refl.
+        destruct (Z.ltb_spec j 64); [|lia]. cbn [andb]. now rewrite andb_true_r.
+      * destruct (Z.eqb_spec (i - (qj - j - base)) j); [lia|]. now rewrite !andb_false_r.
+  - rewrite (w64_high to i) by assumption. destruct (Z.eqb_spec i (qj - base)); [lia|reflexivity].
+Qed.
+
+Lemma shrink_upd_bits from base j qj to i :
+  w64 to -> 0 <= j < 64 -> j <= qj - base < 64 -> 0 <= i ->
+  Z.testbit (shrink_upd from base j qj to) i = Z.testbit to i || ((i =? j) && Z.testbit from (qj - base)).
+Proof.
+  intros Hto Hj Hp Hi. unfold shrink_upd. rewrite tb_mod, Z.lor_spec by lia.
+  rewrite Z.shiftr_spec by lia. rewrite tb_mod, Z.land_spec, tb_mod, tb_one by lia.
+  destruct (Z.ltb_spec i 64) as [Hlt|Hge]; cbn [andb].
+  - f_equal. destruct (Z.eqb_spec i j) as [->|Hne].
+    + replace (j + (qj - j - base)) with (qj - base) by lia. rewrite Z.eqb_refl.
+      destruct (Z.ltb_spec (qj - base) 64); [|lia]. cbn [andb]. now rewrite andb_true_r.
+    + destruct (Z.eqb_spec (i + (qj - j - base)) (qj - base)); [lia|]. now rewrite !andb_false_r.
+  - rewrite (w64_high to i) by assumption. destruct (Z.eqb_spec i j); [lia|reflexivity].
+Qed.
+
+Lemma model_w64 upd : (forall j to, w64 (upd j to)) -> forall k to, w64 to -> w64 (model upd k to).
+Proof. intros H k. induction k as [|k IH]; intros to Hto; cbn [model]; auto. Qed.
+
+(** bit i of the result = OR over the cases j < k of [f j i] *)
+Lemma model_bits upd (f : nat -> Z -> bool) (n : nat) :
+  (forall j to, w64 (upd j to)) ->
+  (forall j to i, (j < n)%nat -> w64 to -> 0 <= i ->
+                  Z.testbit (upd (Z.of_nat j) to) i = Z.testbit to i || f j i) ->
+  forall k to i, (k <= n)%nat -> w64 to -> 0 <= i ->
+    Z.testbit (model upd k to) i = Z.testbit to i || existsb (fun j => f j i) (seq 0 k).
+Proof.
+  intros Hw Hu k. induction k as [|k IH]; intros to i Hk Hto Hi; cbn [model].
+  - cbn. now rewrite orb_false_r.
+  - rewrite IH by (auto; lia). rewrite Hu by (auto; lia).
+    rewrite seq_S, existsb_app. cbn [existsb Nat.add]. rewrite orb_false_r.
+    rewrite <- orb_assoc. f_equal. apply orb_comm.
+Qed.
+
+Lemma existsb_seq_false (g : nat -> bool) n : (forall j, (j < n)%nat -> g j = false) -> existsb g (seq 0 n) = false.
+Proof.
+  intros H. destruct (existsb g (seq 0 n)) eqn:E; [|reflexivity].
+  apply existsb_exists in E as (j & Hin & Hg). apply in_seq in Hin. rewrite H in Hg by lia. discriminate.
+Qed.
+
+Lemma existsb_seq_one (g : nat -> bool) n j0 : (j0 < n)%nat ->
+  (forall j, (j < n)%nat -> j <> j0 -> g j = false) -> existsb g (seq 0 n) = g j0.
+Proof.
+  intros Hj H. destruct (g j0) eqn:E0.
+  - apply existsb_exists. exists j0. split; [apply in_seq; lia|assumption].
+  - apply existsb_seq_false. intros j Hlt. destruct (Nat.eq_dec j j0) as [->|Hne]; auto.
+Qed.
+
+Lemma w64_0 : w64 0.
+Proof. unfold w64. lia. Qed.
+
+Section Specs.
+  Variables (Q : list Z) (base : Z) (n : nat).
+  Hypothesis Hn : (1 <= n <= 16)%nat.
+  Hypothesis Hq : sorted_in_range Q base n.
+  Let pos (j : nat) : Z := nth j Q 0 - base.
+
+  Lemma pos_range j : (j < n)%nat -> Z.of_nat j <= pos j < 64.
+  Proof.
+    intros Hj. pose proof (sorted_lower _ _ _ Hq j Hj). destruct Hq as (_ & _ & Hr & _).
+    destruct (Hr j Hj). unfold pos. lia.
+  Qed.
+
+  Lemma pos_inj j k : (j < n)%nat -> (k < n)%nat -> pos j = pos k -> j = k.
+  Proof. intros Hj Hk E. apply (sorted_inj _ _ _ Hq); auto. unfold pos in E. lia. Qed.
+
+  Lemma spread_model_w64 from : w64 (spread_model from base Q n).
+  Proof. apply model_w64; [intros; apply spread_upd_w64|apply w64_0]. Qed.
+  Lemma shrink_model_w64 from : w64 (shrink_model from base Q n).
+  Proof. apply model_w64; [intros; apply shrink_upd_w64|apply w64_0]. Qed.
+
+  Lemma spread_model_bits from i : 0 <= i ->
+    Z.testbit (spread_model from base Q n) i =
+    existsb (fun j => (i =? pos j) && Z.testbit from (Z.of_nat j)) (seq 0 n).
+  Proof.
+    intros Hi. unfold spread_model.
+    rewrite (model_bits _ (fun j i => (i =? pos j) && Z.testbit from (Z.of_nat j)) n) with (k := n);
+      [rewrite Z.testbit_0_l; reflexivity| | |lia|apply w64_0|assumption].
+    - intros; apply spread_upd_w64.
+    - intros j to i' Hj Hto Hi'. rewrite Nat2Z.id. pose proof (pos_range j Hj). unfold pos in *.
+      apply spread_upd_bits; auto; lia.
+  Qed.
+
+  Lemma shrink_model_bits from i : 0 <= i ->
+    Z.testbit (shrink_model from base Q n) i =
+    existsb (fun j => (i =? Z.of_nat j) && Z.testbit from (pos j)) (seq 0 n).
+  Proof.
+    intros Hi. unfold shrink_model.
+    rewrite (model_bits _ (fun j i => (i =? Z.of_nat j) && Z.testbit from (pos j)) n) with (k := n);
+      [rewrite Z.testbit_0_l; reflexivity| | |lia|apply w64_0|assumption].
+    - intros; apply shrink_upd_w64.
+    - intros j to i' Hj Hto Hi'. rewrite Nat2Z.id. pose proof (pos_range j Hj). unfold pos in *.
+      apply shrink_upd_bits; auto; lia.
+  Qed.
+
+  (** spread: bit j of [from] goes to position Q[j] - base; every other position is 0 *)
+  Theorem spread_spec from :
+    (forall j, (j < n)%nat -> Z.testbit (spread_model from base Q n) (pos j) = Z.testbit from (Z.of_nat j)) /\
+    (forall i, 0 <= i -> (forall j, (j < n)%nat -> i <> pos j) -> Z.testbit (spread_model from base Q n) i = false).
+  Proof.
+    split.
+    - intros j Hj. pose proof (pos_range j Hj). rewrite spread_model_bits by lia.
+      rewrite (existsb_seq_one _ n j Hj).
+      + now rewrite Z.eqb_refl.
+      + intros k Hk Hne. destruct (Z.eqb_spec (pos j) (pos k)) as [E|_]; [|reflexivity].
+        apply pos_inj in E; auto. congruence.
+    - intros i Hi Hno. rewrite spread_model_bits by lia. apply existsb_seq_false.
+      intros j Hj. destruct (Z.eqb_spec i (pos j)) as [E|_]; [|reflexivity]. now apply Hno in E.
+  Qed.
+
+  (** shrink: bit j of the result is bit Q[j] - base of [from]; bits >= n are 0 *)
+  Theorem shrink_spec from :
+    (forall j, (j < n)%nat -> Z.testbit (shrink_model from base Q n) (Z.of_nat j) = Z.testbit from (pos j)) /\
+    (forall i, Z.of_nat n <= i -> Z.testbit (shrink_model from base Q n) i = false).
+  Proof.
+    split.
+    - intros j Hj. rewrite shrink_model_bits by lia. rewrite (existsb_seq_one _ n j Hj).
+      + now rewrite Z.eqb_refl.
+      + intros k Hk Hne. destruct (Z.eqb_spec (Z.of_nat j) (Z.of_nat k)); [lia|reflexivity].
+    - intros i Hi. rewrite shrink_model_bits by lia. apply existsb_seq_false.
+      intros j Hj. destruct (Z.eqb_spec i (Z.of_nat j)); [lia|reflexivity].
+  Qed.
+
+  (** shrink after spread is the identity on length-n bit strings *)
+  Theorem shrink_spread_model x : 0 <= x < 2 ^ Z.of_nat n ->
+    shrink_model (spread_model x base Q n) base Q n = x.
+  Proof.
+    intros Hx. apply Z.bits_inj'. intros i Hi.
+    destruct (Z.lt_ge_cases i (Z.of_nat n)) as [Hlt|Hge].
+    - replace i with (Z.of_nat (Z.to_nat i)) by lia.
+      rewrite (proj1 (shrink_spec _)) by lia. now rewrite (proj1 (spread_spec _)) by lia.
+    - rewrite (proj2 (shrink_spec _)) by lia. symmetry.
+      destruct (Z.eq_dec x 0) as [->|Hne]; [apply Z.testbit_0_l|].
+      apply Z.bits_above_log2; [lia|]. assert (Z.log2 x < Z.of_nat n) by (apply Z.log2_lt_pow2; lia). lia.
+  Qed.
+
+  (** spread after shrink keeps exactly the bits at the positions Q[j] - base *)
+  Theorem spread_shrink_model y : 0 <= y ->
+    (forall i, 0 <= i -> (forall j, (j < n)%nat -> i <> pos j) -> Z.testbit y i = false) ->
+    spread_model (shrink_model y base Q n) base Q n = y.
+  Proof.
+    intros Hy Hsupp. apply Z.bits_inj'. intros i Hi.
+    destruct (existsb (fun j => i =? pos j) (seq 0 n)) eqn:E.
+    - apply existsb_exists in E as (j & Hin & Hj). apply in_seq in Hin. apply Z.eqb_eq in Hj. subst i.
+      rewrite (proj1 (spread_spec _)) by lia. now rewrite (proj1 (shrink_spec _)) by lia.
+    - assert (Hno : forall j, (j < n)%nat -> i <> pos j).
+      { intros j Hj Heq. assert (existsb (fun j => i =? pos j) (seq 0 n) = true); [|congruence].
+        apply existsb_exists. exists j. split; [apply in_seq; lia|now apply Z.eqb_eq]. }
+      rewrite (proj2 (spread_spec _)) by auto. symmetry. now apply Hsupp.
+  Qed.
+End Specs.
+
+(** * The statements about the translated programs *)
+Theorem spread_shrink_inverse from Q n base : (1 <= n <= 16)%nat -> sorted_in_range Q base n ->
+  0 <= from < 2 ^ Z.of_nat n ->
+  exists s, run_sp "m4ri_spread_bits" from Q (Z.of_nat n) base = Ok s /\ w64 s /\
+            run_sp "m4ri_shrink_bits" s Q (Z.of_nat n) base = Ok from.
+Proof.
+  intros Hn Hq Hx. exists (spread_model from base Q n). split; [now apply spread_run|split].
+  - now apply spread_model_w64.
+  - rewrite shrink_run by assumption. f_equal. now apply shrink_spread_model.
+Qed.
+
+Theorem shrink_spread_inverse y Q n base : (1 <= n <= 16)%nat -> sorted_in_range Q base n -> 0 <= y ->
+  (forall i, 0 <= i -> (forall j, (j < n)%nat -> i <> nth j Q 0 - base) -> Z.testbit y i = false) ->
+  exists s, run_sp "m4ri_shrink_bits" y Q (Z.of_nat n) base = Ok s /\ 0 <= s < 2 ^ Z.of_nat n /\
+            run_sp "m4ri_spread_bits" s Q (Z.of_nat n) base = Ok y.
+Proof.
+  intros Hn Hq Hy Hsupp. exists (shrink_model y base Q n). split; [now apply shrink_run|split].
+  - pose proof (shrink_model_w64 Q base n y) as [H0 _]. split; [assumption|].
+    destruct (Z.eq_dec (shrink_model y base Q n) 0) as [->|Hne]; [apply Z.pow_pos_nonneg; lia|].
+    apply Z.log2_lt_pow2; [lia|].
+    destruct (Z.lt_ge_cases (Z.log2 (shrink_model y base Q n)) (Z.of_nat n)) as [|Hge]; [assumption|].
+    pose proof (Z.bit_log2 (shrink_model y base Q n) ltac:(lia)) as Hb.
+    rewrite (proj2 (shrink_spec Q base n Hn Hq y)) in Hb by lia. discriminate.
+  - rewrite spread_run by assumption. f_equal. now apply spread_shrink_model.
+Qed.
+
+(** the translated functions, bit by bit *)
+Theorem spread_bits_spec from Q n base : (1 <= n <= 16)%nat -> sorted_in_range Q base n ->
+  exists r, run_sp "m4ri_spread_bits" from Q (Z.of_nat n) base = Ok r /\ w64 r /\
+    (forall j, (j < n)%nat -> Z.testbit r (nth j Q 0 - base) = Z.testbit from (Z.of_nat j)) /\
+    (forall i, 0 <= i -> (forall j, (j < n)%nat -> i <> nth j Q 0 - base) -> Z.testbit r i = false).
+Proof.
+  intros Hn Hq. exists (spread_model from base Q n). split; [now apply spread_run|split].
+  - now apply spread_model_w64.
+  - now apply spread_spec.
+Qed.
+
+Theorem shrink_bits_spec from Q n base : (1 <= n <= 16)%nat -> sorted_in_range Q base n ->
+  exists r, run_sp "m4ri_shrink_bits" from Q (Z.of_nat n) base = Ok r /\ w64 r /\
+    (forall j, (j < n)%nat -> Z.testbit r (Z.of_nat j) = Z.testbit from (nth j Q 0 - base)) /\
+    (forall i, Z.of_nat n <= i -> Z.testbit r i = false).
+Proof.
+  intros Hn Hq. exists (shrink_model from base Q n). split; [now apply shrink_run|split].
+  - now apply shrink_model_w64.
+  - now apply shrink_spec.
+Qed.
+
+(** the hypotheses are satisfiable; a concrete instance *)
+Example sorted_example : sorted_in_range [3; 7; 64; 66] 3 4.
+Proof.
+  split; [reflexivity|]. split; [lia|]. split.
+  - intros j Hj. do 4 (destruct j as [|j]; [cbn; lia|]). lia.
+  - intros j k Hjk. do 4 (destruct j as [|j]; [do 4 (destruct k as [|k]; [cbn; lia|]); lia|]). lia.
+Qed.
